@@ -7,14 +7,16 @@ from vf.sim import registry
 
 _root = None
 _counter = 0
-KEEP = set()          # keep-alive descriptors owned by the harness (not the library's)
 
 
 def root():
+    """per-process scratch directory; under $VF_SCRATCH (created and removed by the runner) when set"""
     global _root
     if _root is None or not os.path.isdir(_root):
-        for base in ("/dev/shm", "/dev"):
-            cand = os.path.join(base, "pyscsi-verif-%d" % os.getpid())
+        base = os.environ.get("VF_SCRATCH")
+        cands = [os.path.join(base, "w%d" % os.getpid())] if base else []
+        cands += [os.path.join(b, "pyscsi-verif-%d" % os.getpid()) for b in ("/dev/shm", "/dev")]
+        for cand in cands:
             try:
                 os.makedirs(cand, exist_ok=True)
                 _root = cand
@@ -29,13 +31,17 @@ def root():
 
 def cleanup():
     global _root
-    if _root and os.path.isdir(_root) and os.path.basename(_root) == "pyscsi-verif-%d" % os.getpid():
+    if _root and os.path.isdir(_root):
         shutil.rmtree(_root, ignore_errors=True)
     _root = None
 
 
 class Node(object):
-    """a device path with generations; each generation is a distinct inode bound to a target"""
+    """a device path with generations; each generation is a distinct inode bound to a target.
+
+    Old inodes are kept alive by a hard link (path.keepN), never by a descriptor, so the harness holds no
+    file descriptors and descriptor numbers are only ever taken by the library.
+    """
 
     def __init__(self, target_factory, name=None):
         global _counter
@@ -45,8 +51,8 @@ class Node(object):
         self.generation = 0
         self.targets = {}          # generation -> Target
         self.inodes = {}           # generation -> ino
-        self._keep = []            # keep old inodes alive so numbers are not recycled
         self.present = False
+        self.dev = None
         self.plug()
 
     def plug(self):
@@ -54,14 +60,15 @@ class Node(object):
         self.generation += 1
         tmp = self.path + ".new%d" % self.generation
         fd = os.open(tmp, os.O_CREAT | os.O_RDWR | os.O_EXCL, 0o600)
-        self._keep.append(fd)
-        KEEP.add(fd)
-        ino = os.fstat(fd).st_ino
+        st = os.fstat(fd)
+        os.close(fd)
+        os.link(tmp, self.path + ".keep%d" % self.generation)
         os.rename(tmp, self.path)
         tgt = self.target_factory(self.generation)
         self.targets[self.generation] = tgt
-        self.inodes[self.generation] = ino
-        registry.by_inode[ino] = tgt
+        self.inodes[self.generation] = st.st_ino
+        self.dev = st.st_dev
+        registry.by_inode[st.st_ino] = tgt
         self.present = True
         return tgt
 
@@ -79,31 +86,29 @@ class Node(object):
                 return g
         return None
 
-    def destroy(self):
-        for fd in self._keep:
+    def open_handles(self):
+        """[(fd, generation)] descriptors of this process that refer to one of this node's inodes"""
+        out = []
+        for name in os.listdir("/proc/self/fd"):
             try:
-                os.close(fd)
+                st = os.fstat(int(name))
+            except OSError:
+                continue
+            if st.st_dev == self.dev:
+                g = self.generation_of(st.st_ino)
+                if g is not None:
+                    out.append((int(name), g))
+        return sorted(out)
+
+    def destroy(self):
+        for g in list(self.inodes):
+            try:
+                os.unlink(self.path + ".keep%d" % g)
             except OSError:
                 pass
-            KEEP.discard(fd)
-        self._keep = []
         try:
             os.unlink(self.path)
         except OSError:
             pass
         for ino in self.inodes.values():
             registry.by_inode.pop(ino, None)
-
-
-def open_fds_under_root():
-    """descriptors of this process that point into the scratch directory, excluding the keep-alive ones"""
-    out = []
-    r = root()
-    for name in os.listdir("/proc/self/fd"):
-        try:
-            tgt = os.readlink("/proc/self/fd/" + name)
-        except OSError:
-            continue
-        if tgt.startswith(r) and int(name) not in KEEP:
-            out.append((int(name), tgt))
-    return out
